@@ -31,14 +31,18 @@ Definition LIVE : Z := -2.
 Definition ERR : Z := -1.
 Definition NK : Z := 1024.
 
-Record kst := mkK { kfree : Z; knext : Z -> Z; kdtor : Z -> Z }.
+(** [kgen]: the [gen] column of the repair with generation tags (an [unsigned
+    int] per cell, incremented by every creation of the index); in the code
+    without tags ([tagged = false]) it stays constantly 0 and nothing reads it *)
+Record kst := mkK { kfree : Z; knext : Z -> Z; kdtor : Z -> Z; kgen : Z -> Z }.
+Definition GEN_MOD : Z := 4294967296.
 
 Definition fupd (f : Z -> Z) (k v : Z) : Z -> Z := fun x => if x =? k then v else f x.
 
 (** [myth_tls_key_allocator_init]; the destructor column of the global
     allocator starts zeroed *)
 Definition kinit : kst :=
-  mkK 0 (fun i => if i <? NK - 1 then i + 1 else NULL) (fun _ => 0).
+  mkK 0 (fun i => if i <? NK - 1 then i + 1 else NULL) (fun _ => 0) (fun _ => 0).
 
 Inductive pc :=
 | Idle
@@ -56,7 +60,10 @@ Fixpoint remove1 (k : Z) (l : list Z) : list Z :=
   | x :: r => if x =? k then r else x :: remove1 k r
   end.
 
-Definition tick (s : kst) (held : list Z) (p : pc) : kst * list Z * pc :=
+Definition bump (tagged : bool) (s : kst) (ke : Z) : Z -> Z :=
+  if tagged then fupd (kgen s) ke ((kgen s ke + 1) mod GEN_MOD) else kgen s.
+
+Definition tick (tagged : bool) (s : kst) (held : list Z) (p : pc) : kst * list Z * pc :=
   match p with
   | AHead d =>
       let ke := kfree s in
@@ -64,16 +71,16 @@ Definition tick (s : kst) (held : list Z) (p : pc) : kst * list Z * pc :=
   | ANext ke d => (s, held, ACas ke (knext s ke) d)
   | ACas ke n d =>
       if kfree s =? ke
-      then (mkK n (fupd (knext s) ke LIVE) (fupd (kdtor s) ke d), ke :: held, Done ke)
+      then (mkK n (fupd (knext s) ke LIVE) (fupd (kdtor s) ke d) (bump tagged s ke), ke :: held, Done ke)
       else (s, held, AHead d)
   | DCheck k =>
       if knext s k =? LIVE then (s, remove1 k held, DHead k (kdtor s k))
       else (s, held, Done ERR)
   | DHead k f =>
       let h := kfree s in
-      (mkK (kfree s) (fupd (knext s) k h) (kdtor s), held, DCas k h f)
+      (mkK (kfree s) (fupd (knext s) k h) (kdtor s) (kgen s), held, DCas k h f)
   | DCas k h f =>
-      if kfree s =? h then (mkK k (knext s) (kdtor s), held, Done f)
+      if kfree s =? h then (mkK k (knext s) (kdtor s) (kgen s), held, Done f)
       else (s, held, DHead k f)
   | Idle => (s, held, Idle)
   | Done r => (s, held, Done r)
@@ -91,13 +98,16 @@ Definition start (o : op) : pc :=
   end.
 
 (** ** sequential execution: one call runs to completion *)
+Section Variant.
+Variable tagged : bool.
+
 Fixpoint run_thread (fuel : nat) (s : kst) (h : list Z) (p : pc) : option (kst * list Z * Z) :=
   match p with
   | Done r => Some (s, h, r)
   | Idle => None
   | _ => match fuel with
          | O => None                         (* out of fuel: excluded by the theorems *)
-         | S f => let '(s', h', p') := tick s h p in run_thread f s' h' p'
+         | S f => let '(s', h', p') := tick tagged s h p in run_thread f s' h' p'
          end
   end.
 
@@ -163,7 +173,7 @@ Definition step (s : state) (a : nat * ev) : option state :=
           end
       | Tick =>
           if running p then
-            let '(s', h', p') := tick (ks s) (held s) p in
+            let '(s', h', p') := tick tagged (ks s) (held s) p in
             Some (mkS s' h' (set_nth (threads s) t p'))
           else None
       | Ret =>
@@ -194,6 +204,7 @@ Definition gstep (s : state) (a : nat * ev) : option state :=
   | (t, Tick) => if aba_window s t then None else step s a
   | _ => step s a
   end.
+End Variant.
 
 (** ** interface for the trace validator *)
 Definition label_of (p : pc) : string :=
